@@ -63,6 +63,9 @@ def sorted_slots(sizes, descending=False):
 def check_type_size(chk):
     e = chk.engine()
     fn = e.func('get_type_size')
+    if not chk.native.available('typesize'):
+        chk.undecide('get_type_size changed its signature: the unit-level harness is not applicable (the detectors are still decided end to end)')
+        return
     b = sol.TreeBuilder()
     n16, n8 = z3.BitVec('width16', 16), z3.BitVec('width8', 8)
     cases = []
@@ -135,6 +138,9 @@ def size_vars(n, tag='k'):
 def check_slots(chk, maxlen):
     e = chk.engine()
     fn = e.func('storage_slots_used')
+    if not chk.native.available('slots'):
+        chk.undecide('storage_slots_used changed its signature: the unit-level harness is not applicable (the detectors are still decided end to end)')
+        return
     for n in range(0, maxlen + 1):
         ks, pre = size_vars(n)
         sizes = [Int(k * 8, 'u16') for k in ks]
